@@ -54,6 +54,22 @@ def run(pid, tier, ev=None, vd=None, finish=True):
                 jobs.append({"prog": prog, "program": hr.PROGRAMS[prog], "order": [x[0] for x in sc["hist"]],
                              "labels": sc["hist"], "want_final": sc["final"], "want_replies": sc["replies"], "src": "tlc"})
             log(f"[{pid}] program {prog}: {len(scheds)} model behaviours, {min(len(scheds), per_prog)} replayed")
+        if tier == "quick":
+            # three servers in the quick tier too: TLC in simulation mode draws behaviours of casrace3 (seeded), each one replayed
+            r = tlc("HubSched", "MC_HubSched_casrace3.cfg", workers=4, timeout=600, simulate="num=80",
+                    extra_args=["-depth", "200", "-seed", str(vlib.seed())])
+            seen, scheds = set(), []
+            for sc in r.payloads.get("SCHED", []):
+                k = json.dumps(sc["hist"])
+                if k not in seen:
+                    seen.add(k)
+                    scheds.append(sc)
+            for sc in scheds[:300]:
+                jobs.append({"prog": "casrace3", "program": hr.PROGRAMS["casrace3"], "order": [x[0] for x in sc["hist"]],
+                             "labels": sc["hist"], "want_final": sc["final"], "want_replies": sc["replies"], "src": "tlc"})
+            log(f"[{pid}] program casrace3: {len(scheds)} simulated model behaviours, {min(len(scheds), 300)} replayed")
+            if not scheds:
+                raise vlib.ToolError("TLC simulation of casrace3 produced no behaviour")
         # kills from the model
         r = tlc("HubSched", "MC_HubSched_putput_kill.cfg", workers=8, timeout=1500, xmx="8g")
         ks = [s for s in r.payloads.get("SCHED", []) if any(x[1] == "kill" for x in s["hist"])]
